@@ -130,3 +130,11 @@ func vStub_os_Rename(oldpath, newpath string) error {
 }
 
 func (s *vNSStore) Mkdir(name string, perm os.FileMode) error { return vStub_os_Mkdir(name, perm) }
+
+// reads go to the same namespace as Stat and the writes
+func (s *vNSStore) ReadFile(name string) ([]byte, error) {
+	if i := vNSFind(filepath.Clean(name)); i >= 0 {
+		return append([]byte(nil), vNSData[i]...), nil
+	}
+	return nil, fs.ErrNotExist
+}
